@@ -361,9 +361,60 @@ def _warm():
         pass
 
 
+SCALE_SIZES = [255, 256, 257, 512, 999, 1000, 1001, 1024, 1025, 1500, 2048, 2049, 3000, 4096, 5000]
+
+
+def _gen_scale_case(rng, cls, n):
+    """SCALE stream (implementation + oracle only): 255..5000 agents, of which only a few - at the first, last, middle,
+    500th, 1000th, 1001st ... position - return a portrayal key at all; every back end must still show each agent as ITS
+    portrayal says and the Altair chart must declare the encodings / tooltips those few agents need"""
+    fam, single, legacy, altair, has_layer = CLASSES[cls]
+    sp = {"cls": cls, "draw_grid": False}
+    if fam in ("Orth", "Hex"):
+        side = 70 if (single and n > 1600) or rng.random() < 0.3 else 40
+        sp["w"], sp["h"] = side, side
+        if single:
+            n = min(n, side * side)
+    elif fam == "Cont":
+        sp.update(x0=0, y0=0, w=40, h=40)
+    elif fam == "Net":
+        nodes = 1100
+        sp["points"] = [[i % 40, i // 40] for i in range(nodes)]
+        sp["edges"] = [[i, i + 1] for i in range(0, nodes - 1, 97)]
+    else:
+        sp["points"] = [list(p) for p in VORO_SETS[1]]
+    # the few portrayals that return anything: colour only, size only (a numpy scalar in half of the cases), marker + zorder
+    pt = [[None, rng.randrange(1, 6), None, None], [4 * rng.randint(1, 60), None, None, None], [None, None, rng.randrange(1, 6), 4 * rng.randint(2, 3)]]
+    positions = [0, n - 1, n // 2, 499, 500, 501, 999, 1000, 1001, 1023, 1024, 2047, 2048, 4095]
+    positions = [p for p in positions if 0 <= p < n]
+    rng.shuffle(positions)
+    sparse = [[positions[k], k % 3] for k in range(min(len(positions), rng.choice([1, 2, 3, 3, 3])))]
+    ops = [["bulk", n, rng.randint(1, 10 ** 6), sparse], ["collect"], ["mpl"], ["altair"], ["altairenc"],
+           ["mplc", False], ["altairc", False], ["remove", rng.randint(1, n)], ["altairenc"], ["mpl"]]
+    c = {"space": sp, "portrayal": pt, "layer": None, "ops": ops, "scale": True}
+    v = {}
+    if rng.random() < 0.5:
+        v["np_scalars"] = True
+    if rng.random() < 0.3:
+        v["color_form"] = rng.choice([1, 2, 3])
+    if rng.random() < 0.3:
+        v["entry"] = rng.randint(1, 1000)
+    if v:
+        c["variant"] = v
+    return c
+
+
+SCALE_CLASSES = ["MultiGrid", "SingleGrid", "OrthogonalMooreGrid", "HexGrid", "HexMultiGrid", "ContinuousSpace", "NetworkGrid", "Network",
+                 "OrthogonalMooreGrid1", "ContinuousSpaceExp", "VoronoiGrid"]
+
+
 def gen_cases(rng, tier):
     _warm()
     cases = []
+    # SCALE stream: a handful per quick run, crossing 256 / 512 / 1000 / 1024 / 2048 / 4096 agents
+    for k in range(6 if tier == "quick" else 60):
+        cases.append(_gen_scale_case(rng, SCALE_CLASSES[(k + rng.randrange(11)) % 11 if k >= 3 else k],
+                                     rng.choice([1000, 1001, 1500, 2049]) if k < 3 else rng.choice(SCALE_SIZES)))
     classes = list(CLASSES)
     n = 1800 if tier == "quick" else 20000
     for i in range(n):
@@ -793,6 +844,7 @@ def run_impl(case):
 
     draw_count = [0]
     inf_layer = {}
+    occupied_set = set() if any(o[0] == "bulk" for o in case["ops"]) else None
     if (case.get("variant") or {}).get("entry") is not None:
         import matplotlib.pyplot as plt
 
@@ -800,7 +852,8 @@ def run_impl(case):
     layer_portrayals = {}     # settings -> the one propertylayer_portrayal dict a user would define once and reuse
     json_key = lambda v: repr(v)  # noqa: E731
     agents = {}      # id -> agent object (in the space)
-    shadow = {}      # id -> (kind, x, y)   address as in the history
+    shadow = _Shadow()      # id -> (kind, x, y)   address as in the history
+    shadow.npt = len(pt)
 
     shared = bool(case.get("shared_dict"))
     cache = {}       # kind -> the ONE dict object a caching portrayal returns for that kind
@@ -1017,6 +1070,43 @@ def run_impl(case):
     for i, op in enumerate(case["ops"]):
         kind = op[0]
         try:
+            if kind == "bulk":
+                # SCALE stream: n agents placed at once (addresses from a seed), all of the key-less kind except a few
+                _, n, rseed, sparse = op
+                import random as _random
+
+                r2 = _random.Random(rseed)
+                kinds = dict((int(pos), int(k)) for pos, k in sparse)
+                addrs = _addresses(sp)
+                if addrs is None:
+                    pool = None
+                elif single:
+                    pool = r2.sample(addrs, min(n, len(addrs)))
+                else:
+                    hot = addrs[r2.randrange(len(addrs))]          # one cell / node that holds hundreds of agents
+                    pool = [hot if j < min(300, n // 3) else addrs[r2.randrange(len(addrs))] for j in range(n)]
+                    r2.shuffle(pool)
+                placed = 0
+                for j in range(n if pool is None else len(pool)):
+                    aid = len(shadow) + 1
+                    while aid in shadow:
+                        aid += 1
+                    if pool is None:
+                        x, y = r2.randrange(4 * sp["x0"], 4 * (sp["x0"] + sp["w"])), r2.randrange(4 * sp["y0"], 4 * (sp["y0"] + sp["h"]))
+                    else:
+                        x, y = pool[j]
+                    if single and occupied_set is not None and (x, y) in occupied_set:
+                        continue
+                    a = new_agent()
+                    a._vkind = kinds.get(j, len(pt))
+                    put(a, x, y, True)
+                    agents[aid] = a
+                    shadow[aid] = (a._vkind, x, y)
+                    if occupied_set is not None:
+                        occupied_set.add((x, y))
+                    placed += 1
+                obs.append([0, placed])
+                continue
             if kind in ("place", "move", "remove", "kind"):
                 aid = op[1]
                 if kind == "place":
@@ -1209,9 +1299,15 @@ def run_impl(case):
                 o = [0, hc, hs, int("marker" in tips), int("zorder" in tips), sn, sd]
                 obs.append(o)
                 # the statement side: every agent shown with the colour / size ITS portrayal returned
-                flags = [[int((pt[k] if k < len(pt) else [None] * 4)[j] is not None) for j in (1, 0)] for (k, _, _) in shadow.values()]
+                flags = [[int((pt[k] if k < len(pt) else [None] * 4)[j] is not None) for j in (1, 0, 2, 3)] for (k, _, _) in shadow.values()]
                 anyc = max([f[0] for f in flags] or [0])
                 anys = max([f[1] for f in flags] or [0])
+                anyt = [max([f[2] for f in flags] or [0]), max([f[3] for f in flags] or [0])]
+                if o[3:5] != anyt and [hc, hs] == [anyc, anys]:
+                    fail("C20/altair/encoding/portrayed-keys-not-encoded", i,
+                         f"_draw_grid on {cls} with agents {shadow}, portrayal table {pt}: tooltip fields marker / zorder {o[3:5]}, "
+                         f"some agent's portrayal returns them: {anyt}")
+                flags = [f[:2] for f in flags]
                 if [hc, hs] != [anyc, anys]:
                     uniform = all(f == flags[0] for f in flags)
                     key = ("C20/altair/encoding/later-agents-keys-not-encoded" if (not uniform and hc <= anyc and hs <= anys)
@@ -1511,7 +1607,7 @@ def run_impl(case):
         import matplotlib.pyplot as plt
 
         plt.close("all")
-    return {"obs": obs, "failures": failures, "model": not spring}
+    return {"obs": obs, "failures": failures, "model": not spring and occupied_set is None}
 
 
 TAG_CLASS = {0: 0, 1: 1, 2: 2, 3: 3, 4: 2, 5: 2, 6: 2, 7: 2, 8: 0, 9: 1, 10: 0, 11: 0, 12: 0}     # tag -> fixed / Slider / dict with type / dict without
@@ -1592,8 +1688,25 @@ def _show(items):
     return {n: TAG_NAME[t] for n, t, _ in items}
 
 
+class _Shadow(dict):
+    """id -> (kind, x, y); printed in full for small populations, abbreviated for the scale stream"""
+
+    npt = 0
+
+    def __repr__(self):
+        if len(self) <= 12:
+            return dict.__repr__(self)
+        special = {a: v for a, v in self.items() if v[0] < self.npt}
+        return f"<{len(self)} agents, all of the key-less kind {self.npt} except {dict.__repr__(special)}>"
+
+    __str__ = __repr__
+
+
 def _dims(sp):
-    return {k: v for k, v in sp.items() if k in ("w", "h", "x0", "y0", "points")}
+    d = {k: v for k, v in sp.items() if k in ("w", "h", "x0", "y0", "points")}
+    if len(d.get("points", [])) > 12:
+        d["points"] = f"<{len(d['points'])} points>"
+    return d
 
 
 def _read_markers_spring(ax, sp, space, shadow, pt, i, fail):
@@ -1752,6 +1865,8 @@ def _coq_op(op):
         return "DrawAltairEnc"
     if k == "inflayer":
         return f"DrawInfLayer {L.b(op[1])} {L.b(op[2])}"
+    if k == "bulk":
+        return "Collect"        # scale histories are implementation + oracle only; never evaluated by the model
     if k == "check":
         sig = [_coq_param("self", "PosOrKw", False)] + [_coq_param(*p) for p in op[1]]
         return f"Check {L.lst(sig)} {L.zlist([NAMES.index(n) for n in op[2]])}"
